@@ -22,6 +22,43 @@ pub trait Family: Sync {
     fn ref_key(key: &[u8; 40]) -> Vec<u8>;
     /// the header entry points of the module (typed, reader / writer based), all of which are the same cipher
     fn header_pass(report: &Report, key: &[u8; 40], seed: u64) -> u64;
+    /// modules whose halves can be re-joined (Vanilla): split, uneven use, unsplit, continue
+    fn rejoin_pass(_report: &Report, _key: &[u8; 40]) -> u64 {
+        0
+    }
+}
+
+/// Session keys that collide with `k` under cheap fingerprints: two 8 / 4 / 2 / 1-byte words swapped, the same change
+/// XORed into two words, +d / -d on two bytes, rotation by one word, byte order reversed.
+pub fn colliding_keys(k: &[u8; 40]) -> Vec<[u8; 40]> {
+    let mut v = vec![];
+    for w in [8usize, 4, 2, 1] {
+        for (i, j) in [(0usize, 1usize), (0, 40 / w - 1), (1, 3)] {
+            let mut x = *k;
+            for t in 0..w {
+                x.swap(i * w + t, j * w + t);
+            }
+            v.push(x);
+            let mut y = *k;
+            y[i * w] ^= 0x5A;
+            y[j * w] ^= 0x5A;
+            v.push(y);
+        }
+        let mut r = *k;
+        r.rotate_left(w);
+        v.push(r);
+    }
+    let mut p = *k;
+    p[3] = p[3].wrapping_add(9);
+    p[29] = p[29].wrapping_sub(9);
+    v.push(p);
+    let mut rev = *k;
+    rev.reverse();
+    v.push(rev);
+    v.retain(|x| x != k);
+    v.sort();
+    v.dedup();
+    v
 }
 
 /// Reader that hands out at most `chunk` bytes per call and fails (once) when `fail_at` bytes have been delivered.
@@ -189,6 +226,44 @@ impl Family for Vanilla {
         key.to_vec()
     }
     header_pass_impl!(vanilla_header, Vanilla);
+    fn rejoin_pass(report: &Report, key: &[u8; 40]) -> u64 {
+        use mc::util::catch;
+        let rk = <Vanilla as Family>::ref_key(key);
+        let mut cases = 0u64;
+        let fail = |what: &str, detail: String| viol::<Vanilla>(report, "header-entry-points", what, key, json!({"module": "vanilla_header"}), detail);
+            // split -> the two halves used unevenly -> re-joined: both directions continue where they were
+            for (ne, nd) in [(0usize, 0usize), (7, 0), (0, 9), (13, 41), (40, 1), (255, 3), (6, 4)] {
+                let (mut e, mut d) = <Vanilla as Family>::make(key);
+                let mut re = refmodel::cipher::Recurrence { key: rk.clone(), n: 0, prev: 0 };
+                let mut rd = refmodel::cipher::Recurrence { key: rk.clone(), n: 0, prev: 0 };
+                e.encrypt(&mut vec![0x33u8; ne]);
+                re.enc(&mut vec![0x33u8; ne]);
+                d.decrypt(&mut vec![0x44u8; nd]);
+                rd.dec(&mut vec![0x44u8; nd]);
+                cases += 1;
+                match catch(move || e.unsplit(d)) {
+                    Ok(Ok(mut c)) => {
+                        let mut a = [0x55u8; 64];
+                        let mut wa = [0x55u8; 64];
+                        c.encrypt(&mut a);
+                        re.enc(&mut wa);
+                        let mut b = [0x66u8; 64];
+                        let mut wb = [0x66u8; 64];
+                        c.decrypt(&mut b);
+                        rd.dec(&mut wb);
+                        if a != wa || b != wb {
+                            fail("rejoined-object", format!("after {ne} bytes encrypted and {nd} bytes decrypted on the halves, the re-joined object {} the recurrence", if a != wa { "encrypts off" } else { "decrypts off" }));
+                            return cases;
+                        }
+                    }
+                    other => {
+                        fail("rejoined-object", format!("halves of one object (after {ne} / {nd} bytes) do not re-join: {:?}", other.map(|r| r.map(|_| ()).map_err(|_| "refused"))));
+                        return cases;
+                    }
+                }
+            }
+        cases
+    }
 }
 
 pub struct Tbc;
@@ -661,9 +736,40 @@ pub fn run<F: Family>(tier: Tier, seed: u64) -> i32 {
             }
         }
     });
+    // two connections one after the other on ONE thread whose session keys collide under cheap fingerprints (words
+    // swapped, XOR- or sum-cancelling changes): a key derived or remembered "per key fingerprint" hands the second
+    // connection the first one's key
+    {
+        let base = keys[keys.len() / 2];
+        let mut n_pairs = 0u64;
+        for k2 in colliding_keys(&base) {
+            let (mut e1, mut d1) = F::make(&base);
+            let mut junk = [0x11u8; 24];
+            F::enc(&mut e1, &mut junk);
+            F::dec(&mut d1, &mut junk);
+            let (mut e2, mut d2) = F::make(&k2);
+            let rk2 = F::ref_key(&k2);
+            let mut r = refmodel::cipher::Recurrence { key: rk2.clone(), n: 0, prev: 0 };
+            let mut a = [0x21u8; 48];
+            let mut wa = [0x21u8; 48];
+            F::enc(&mut e2, &mut a);
+            r.enc(&mut wa);
+            let mut r = refmodel::cipher::Recurrence { key: rk2, n: 0, prev: 0 };
+            let mut b = [0x7Eu8; 48];
+            let mut wb = [0x7Eu8; 48];
+            F::dec(&mut d2, &mut b);
+            r.dec(&mut wb);
+            n_pairs += 1;
+            if a != wa || b != wb {
+                viol::<F>(&report, "second-connection-on-the-thread", "recurrence", &k2, json!({"first_connection_key": hex(&base)}), "a connection created after one with a look-alike session key (same words in another order / cancelling changes) does not follow the recurrence for ITS key".into());
+                break;
+            }
+        }
+        report.count("look_alike_key_pairs", n_pairs);
+    }
     // the typed and the reader / writer based header entry points are the same cipher (whole, dribbling and once-failing I/O)
     {
-        let hp: u64 = keys.par_iter().take(tier.pick(6, 40)).map(|k| F::header_pass(&report, k, seed)).sum();
+        let hp: u64 = keys.par_iter().take(tier.pick(6, 40)).map(|k| F::header_pass(&report, k, seed) + F::rejoin_pass(&report, k)).sum();
         report.count("header_entry_point_cases", hp);
         report.require("header_entry_point_cases");
     }
